@@ -207,6 +207,21 @@ class Session:
         for i, r in res.items():
             self.vcs[i].result = r
         self.solver_time += sum(r["time_s"] for r in res.values())
+        # second pass for the queries left open: solver time limits are wall-clock, so a machine
+        # that is busy with other work can starve a query that normally takes a fraction of its
+        # budget.  Retried with three times the budget and half the workers (costs nothing when
+        # nothing was left open); a verdict is only ever replaced by unsat / sat, never weakened.
+        again = [(i, self.vcs[i].smt2) for i, r in res.items() if r["status"] == "unknown" and self.vcs[i].smt2 is not None]
+        if again and len(again) <= 400:
+            res2 = solve.solve_many(again, timeout_s=3 * timeout_s, workers=max(1, int(os.environ.get("VERIF_WORKERS", "12")) // 2))
+            n_fixed = 0
+            for i, r in res2.items():
+                self.solver_time += r["time_s"]
+                if r["status"] in ("unsat", "sat"):
+                    r["detail"] = "second pass (3x budget): " + str(r.get("detail"))
+                    self.vcs[i].result = r
+                    n_fixed += 1
+            self.stats["_second_pass"] = dict(retried=len(again), decided=n_fixed)
         self.stats["_discharge_wall_s"] = round(time.time() - t0, 2)
 
     # ------------------------------------------------------------------ verdicts
